@@ -198,8 +198,23 @@ class World:  # pylint: disable=too-many-instance-attributes
             return
         self.stats[kind] = self.stats.get(kind, 0) + 1
         self.log.append(_loggable(rop, result=result))
+        self.run_checkers(rop, result)
+
+    def run_checkers(self, rop, result):
+        """Run the oracles; an exception raised by LIBRARY code while a view is being read is a violation (a view of a valid
+        state must answer), an exception raised by harness code is a harness error."""
         for checker in self.checkers:
-            checker.after(self, rop, result)
+            try:
+                checker.after(self, rop, result)
+            except (Violation, HarnessError):
+                raise
+            except Exception as exc:  # pylint: disable=broad-except
+                if raised_in_library(exc):
+                    raise self.viol(
+                        f'view-raised:{type(exc).__name__}',
+                        f'after {rop.get("op")}: a read-only view of the container raised {exc!r} ({library_frame(exc)})',
+                    ) from exc
+                raise HarnessError(f'checker {type(checker).__name__} failed: {exc!r}') from exc
 
     def finish(self):
         for checker in self.checkers:
@@ -297,6 +312,46 @@ class World:  # pylint: disable=too-many-instance-attributes
                 self.flags.add('no-holes-dup')
         for key, data in zip(rop['keys'], datas):
             self.model[key] = data
+        return list(keys)
+
+    def r_addpack_off(self, op):
+        """Direct-to-pack from streams that are NOT positioned at zero (the caller consumed a header). Whatever the library
+        decides to store (the tail or the whole stream), key, index and bytes must stay mutually consistent."""
+        idx = (op['n'] or [op['a']])[:3]
+        datas = [self.content(i) for i in idx]
+        flags = op['f']
+        return {
+            'datas': datas,
+            'offsets': [(op['a'] + 7 * i) % (len(d) + 1) for i, d in enumerate(datas)],
+            'compress': bool(flags & 1),
+            'no_holes': bool(flags & 2),
+            'read_twice': bool(flags & 4),
+            'single': bool(flags & 8),
+        }
+
+    def x_addpack_off(self, rop):
+        streams = []
+        for data, offset in zip(rop['datas'], rop['offsets']):
+            stream = io.BytesIO(data)
+            stream.read(offset)
+            streams.append(stream)
+        kwargs = {'compress': rop['compress'], 'no_holes': rop['no_holes'], 'no_holes_read_twice': rop['read_twice']}
+        if rop['single']:
+            streams, datas, offsets = streams[:1], rop['datas'][:1], rop['offsets'][:1]
+            keys = [self.c.add_streamed_object_to_pack(streams[0], **kwargs)]
+        else:
+            datas, offsets = rop['datas'], rop['offsets']
+            keys = self.c.add_streamed_objects_to_pack(streams, **kwargs)
+        if len(keys) != len(datas):
+            raise self.viol('wrong-key:addpack_off', f'{len(keys)} keys returned for {len(datas)} streams')
+        for key, data, offset in zip(keys, datas, offsets):
+            if key == digest(self.hash_type, data[offset:]):
+                self.model[key] = data[offset:]
+            elif key == digest(self.hash_type, data):
+                self.model[key] = data
+            else:
+                raise self.viol('wrong-key:addpack_off', f'stream of {len(data)} bytes at offset {offset}: returned key {key[:10]} is the digest of neither the tail nor the whole stream')
+        self.flags.add('stream-at-offset')
         return list(keys)
 
     # ------------------------------------------------------------------ pack / clean / repack
@@ -547,6 +602,30 @@ class World:  # pylint: disable=too-many-instance-attributes
         self.flags.add('damage-readd')
 
 
+def _frames(exc):
+    import traceback  # pylint: disable=import-outside-toplevel
+
+    return traceback.extract_tb(exc.__traceback__)
+
+
+def raised_in_library(exc) -> bool:
+    from .common import REPO  # pylint: disable=import-outside-toplevel
+
+    prefix = os.path.join(os.path.realpath(REPO), 'disk_objectstore') + os.sep
+    return any(os.path.realpath(frame.filename).startswith(prefix) for frame in _frames(exc))
+
+
+def library_frame(exc) -> str:
+    from .common import REPO  # pylint: disable=import-outside-toplevel
+
+    prefix = os.path.join(os.path.realpath(REPO), 'disk_objectstore') + os.sep
+    frames = [f for f in _frames(exc) if os.path.realpath(f.filename).startswith(prefix)]
+    if not frames:
+        return ''
+    last = frames[-1]
+    return f'{os.path.basename(last.filename)}:{last.name}'
+
+
 def _loggable(rop, **extra):
     out = {}
     for name, value in list(rop.items()) + list(extra.items()):
@@ -589,8 +668,7 @@ def run_case(case: dict, checkers_factory, prop: str, nhandles: int = 1):
     root = new_dir('hist')
     world = World(root, case, checkers=checkers_factory(), prop=prop, nhandles=nhandles)
     try:
-        for checker in world.checkers:
-            checker.after(world, {'op': 'init'}, None)
+        world.run_checkers({'op': 'init'}, None)
         for op in case['ops']:
             world.apply(op)
         world.finish()
